@@ -281,6 +281,13 @@ func (c *c15Case) decls() string {
 		fwd := c15WordR.ReplaceAllString(c.text, fmt.Sprintf("LGk%d", k))
 		fmt.Fprintf(&b, "type RGk%d = {Fkg%d: %s; ZGk%d: int}\nand UGk%d =\n| Ckg%d of %s\n| DGk%d\nand LGk%d = {XGk%d: int}\n\n", k, k, fwd, k, k, k, fwd, k, k, k)
 	}
+	if c.t.k != "unit" && c15WordR.MatchString(c.text) && k%3 == 0 {
+		// the same type with the user record replaced by a user record whose name is ALSO the short
+		// name of an external type declared by a later package_info block: the unqualified name
+		// still denotes the user's record
+		col := c15WordR.ReplaceAllString(c.text, fmt.Sprintf("Nk%d", k))
+		fmt.Fprintf(&b, "type Nk%d = {Vk%d: int}\n\npackage_info pnk%d =\n  type Nk%d\n  let Hk%d: Nk%d->int\n\ntype RNk%d = {Fkn%d: %s; ZNk%d: int}\n\n", k, k, k, k, k, k, k, k, col, k)
+	}
 	fmt.Fprintf(&b, "package_info pkx%d =\n  let Gk%d: ()->%s\n\n", k, k, c.text1)
 	fmt.Fprintf(&b, "let qk%d () =\n  pkx%d.Gk%d ()\n\n", k, k, k)
 	return b.String()
@@ -479,6 +486,17 @@ func runC15(r *core.Run, tier string) {
 				} else if got != fw {
 					r.Violate("type-mapping:fwd-"+pos+":"+c.text, fmt.Sprintf("type expression `%s` (R defined later in the same type group) as %s is emitted as `%s`, the documented grammar gives `%s`", c.text, pos, got, fw), files)
 				}
+			}
+		}
+		if c.t.k != "unit" && c15WordR.MatchString(c.text) && c.id%3 == 0 {
+			cw := c15WordR.ReplaceAllString(c.want, fmt.Sprintf("Nk%d", c.id))
+			placements["external-name-collision"]++
+			r.Eval(c.text+"@external-name-collision", true)
+			got, ok := c.got["field:n"+k]
+			if !ok {
+				r.Violate("type-position-missing:collision:"+c.text, fmt.Sprintf("type expression `%s` over a user record that shares its name with a later external type: no such field in the emitted Go", c.text), files)
+			} else if got != cw {
+				r.Violate("type-mapping:collision:"+c.text, fmt.Sprintf("type expression `%s` (R a user record whose name is also the short name of an external type declared later) is emitted as `%s`, the documented grammar gives `%s`", c.text, got, cw), files)
 			}
 		}
 		check("pkginfo", c.want)
